@@ -24,8 +24,11 @@ pub open spec fn sk_width(n: int) -> nat { if n == 512 { 6 } else { 5 } }
 pub open spec fn sk_len(n: int) -> int { if n == 512 { 1281 } else { 2305 } }
 pub open spec fn lg(n: int) -> int { if n == 512 { 9 } else { 10 } }
 pub open spec fn in_range_w(v: int, w: nat) -> bool { -p2((w - 1) as nat) < v < p2((w - 1) as nat) }
+#[verifier::opaque]
 pub open spec fn sk_f(x: Seq<u8>, n: int, i: int) -> int { sfield(xbits(x), 8 + sk_width(n) * i, sk_width(n)) }
+#[verifier::opaque]
 pub open spec fn sk_g(x: Seq<u8>, n: int, i: int) -> int { sfield(xbits(x), 8 + sk_width(n) * n + sk_width(n) * i, sk_width(n)) }
+#[verifier::opaque]
 pub open spec fn sk_cf(x: Seq<u8>, n: int, i: int) -> int { sfield(xbits(x), 8 + 2 * sk_width(n) * n + 8 * i, 8) }
 /// x is the encoding of the secret polynomials (f, g, F) for degree n
 pub open spec fn is_sk_layout(x: Seq<u8>, f: Seq<int>, g: Seq<int>, cf: Seq<int>, n: int) -> bool {
